@@ -225,7 +225,8 @@ func (b *Box) maybeGC() {
 
 	epochsAfterWhichWeGC := b.GCExpire / b.GCSweep
 
-	if time.Duration(now-lastGC) > epochsAfterWhichWeGC {
+	// Collect garbage at most once every GCExpire
+	if time.Duration(now-lastGC) < epochsAfterWhichWeGC {
 		return
 	}
 
